@@ -9,7 +9,7 @@ Inductive rmwop := RSwap | RAdd | RSub | RAnd | RNand | ROr | RXor | RMax | RMin
 (* object declarations; the i-th declared object is entry i of the store *)
 Inductive decl :=
   | DAtomic (init : N) | DMutex | DRwLock | DCondvar | DNotify | DChan | DCell
-  | DArc | DTrack.
+  | DArc | DTrack | DWaker.
 
 Inductive instr :=
   | ISpawn (b : nat) | IJoin (b : nat)
@@ -34,6 +34,7 @@ Inductive instr :=
   | IArcGetMut (k i : nat) | IArcTryUnwrap (k i : nat)
   | ITrackDrop (k : nat)
   | ITlsWith (k : nat) | ILazyGet (k : nat)
+  | IBlockOn (a : nat) (v : N) (w : nat) | IWake (w : nat) | ITakeWaker (w : nat)
   | IPanic
   | IExplore | IStopExploring | ISkipBranch.
 
